@@ -75,6 +75,12 @@ class HC:
         self.envx = envx
         self.label = label
 
+    def __hash__(self):
+        # deterministic (labels are strings, PYTHONHASHSEED is fixed): the
+        # iteration order of desper's listener sets must not depend on
+        # object addresses, or replays of one history could differ
+        return hash(self.label)
+
     def _got(self, event, entity, world):
         envx = self.envx
         pos = len(envx.log)
